@@ -111,8 +111,8 @@ def validate_traces(ctx, files, label):
             ev = events[at - 1]
             rejected.append({"sig": diff_sig(ev), "case": {"chain": events[lo], "before": events[max(lo + 1, at - 4):at - 1]},
                              "got": ev, "want": "an enabled action of writer %s of PartitionRing.tla on `in` at this time" % ev.get("w", ev.get("l"))})
-        if len(bad) > 3:
-            rejected.append({"sig": "trace:(more rejected chains)", "case": len(bad), "got": "", "want": ""})
+        if len(bad) > 3 and rejected:
+            rejected[-1]["note"] = "%d chains of this trace file were rejected; the first 3 were analysed" % len(bad)
     return accepted, rejected
 
 
